@@ -1,6 +1,6 @@
 /-
   C08 — Re-signing replaces the signature; digests ignore existing signatures.
-  PowerShell part, over `Relic.Model.PS` (model of lib/authenticode/powershell.go after fixes F8a, F8b, F8c).
+  PowerShell part, over `Relic.Model.PS` (model of lib/authenticode/powershell.go after fixes F8a, F8b, F8c, F-ps-eol).
 -/
 import Relic.Proofs.PS
 import Relic.Proofs.PSFrame
@@ -34,7 +34,8 @@ def psSignRound (style : Nat) (f sig : Bytes) : Res Bytes :=
     input, all violated only by contrived scripts – the correspondence exercises those):
     * UTF-16 text keeps its BOM and its alignment (`TextSize` even and ≥ 2);
     * the unterminated last line of the text does not turn into the begin marker when the block's leading CRLF is
-      appended to it (`DigestPowershell` strips the two/four bytes in front of a marker without looking at them). -/
+      appended to it (it would then BE a marker line for every reader; since fix F-ps-eol `DigestPowershell` checks that
+      the two/four bytes it strips in front of a marker are CRLF, which the block's own leading CRLF always is). -/
 def NoFalseMarker (f : Bytes) (d : Digest) (st en : Bytes) : Prop :=
   (d.utf16 = true → d.textSize % 2 = 0 ∧ 2 ≤ d.textSize) ∧
   ∀ l, l ++ (if d.utf16 then widen crlf else crlf) = firstLine st en d.utf16 → ¬ l <:+ f.take d.textSize
